@@ -10,6 +10,7 @@ import (
 	"os"
 	"path/filepath"
 	"sort"
+	"strings"
 	"time"
 
 	abci "github.com/cometbft/cometbft/abci/types"
@@ -169,7 +170,11 @@ type World struct {
 	// nonces were dequeued (fault point in x/tss, build tag verif). The decision depends only on the height and on the position
 	// within the block's execution, so every replica and every re-execution after a crash takes the same one.
 	FailAssign map[int64]int
-	assignIdx  int
+	// FailAssignPanic: at these heights the injected failure is a panic instead of an error return -- but only when the creation
+	// runs under one of the callers that promise to recover from a panic of the signing machinery (tunnel SendPacket, the oracle's
+	// safeCreateSigning; a transaction is recovered by the SDK). Elsewhere it stays an error return.
+	FailAssignPanic map[int64]bool
+	assignIdx       int
 	Halt     *Halt
 	Divergence string
 	DivergedResp [2]*abci.ResponseFinalizeBlock // the two block responses that differed (first replica, diverging replica)
@@ -199,7 +204,7 @@ var defaultConsensusParams = &cmtproto.ConsensusParams{
 }
 
 func New(ch *core.Chooser, lg *core.Log, st *core.Stats, cfg Config, scratch string) (*World, error) {
-	w := &World{Ch: ch, Log: lg, Stats: st, Cfg: cfg, Blocks: map[int64]*BlockRecord{}, scratch: scratch, FailAssign: map[int64]int{}}
+	w := &World{Ch: ch, Log: lg, Stats: st, Cfg: cfg, Blocks: map[int64]*BlockRecord{}, scratch: scratch, FailAssign: map[int64]int{}, FailAssignPanic: map[int64]bool{}}
 	// cooperative fault point in x/tss (guarded by the verif build tag in /repo): see FailAssign
 	tsskeeper.VerifFailAfterDequeue = func(ctx sdk.Context) error {
 		if ctx.ExecMode() != sdk.ExecModeFinalize {
@@ -207,6 +212,13 @@ func New(ch *core.Chooser, lg *core.Log, st *core.Stats, cfg Config, scratch str
 		}
 		w.assignIdx++
 		if n, ok := w.FailAssign[ctx.BlockHeight()]; ok && n == w.assignIdx {
+			if w.FailAssignPanic[ctx.BlockHeight()] {
+				st := string(stack())
+				if strings.Contains(st, "keeper.Keeper.SendPacket(") || strings.Contains(st, ".safeCreateSigning(") || strings.Contains(st, "baseapp.(*BaseApp).runTx(") {
+					w.Stats.Fault("signing_creation_panicked_after_nonce_dequeue")
+					panic("injected fault: panic in the signing creation after the nonces were dequeued")
+				}
+			}
 			w.Stats.Fault("signing_creation_failed_after_nonce_dequeue")
 			return tsstypes.ErrCreateSigningFailed.Wrap("injected fault: the creation fails after the nonces were dequeued")
 		}
